@@ -29,7 +29,9 @@ GenAddProd == \E s \in 1..NSpecies, c \in Coefs : AddProd(s, c)
 Next == GenAddReac \/ GenArrow \/ GenAddProd \/ Finish
 
 (* presentation tokens *)
-TermToks(t) == (IF t[2] = 1 THEN <<>> ELSE <<[r |-> "Coef", n |-> t[2]]>>) \o <<[r |-> "Name", s |-> t[1]]>>
+\* a coefficient is a positive rational <<n, d>> (1/2, 3/2 ... occur in unchecked reactions); it is shown unless it is 1
+TermToks(t) == (IF t[2][1] = t[2][2] THEN <<>> ELSE <<[r |-> "Coef", n |-> t[2][1], d |-> t[2][2]]>>)
+               \o <<[r |-> "Name", s |-> t[1]]>>
 RECURSIVE SideToks(_)
 SideToks(side) == IF side = <<>> THEN <<>>
                   ELSE IF Len(side) = 1 THEN TermToks(side[1])
@@ -42,12 +44,18 @@ NamesInOrder ==
         LET names == SelectSeq(Shown, LAMBDA t : t.r = "Name")
         IN  names = [i \in 1..(Len(reac) + Len(prod)) |->
                         [r |-> "Name", s |-> IF i <= Len(reac) THEN reac[i][1] ELSE prod[i - Len(reac)][1]]]
-NoUnitCoef == \A i \in 1..Len(Shown) : Shown[i].r = "Coef" => Shown[i].n # 1
+NoUnitCoef == \A i \in 1..Len(Shown) : Shown[i].r = "Coef" => Shown[i].n # Shown[i].d
+\* every stored coefficient other than 1 is shown, also those below 1
+AllNonUnitShown == phase = "done" =>
+    Cardinality({ i \in 1..Len(Shown) : Shown[i].r = "Coef" }) =
+    Cardinality({ i \in 1..Len(reac) : reac[i][2][1] # reac[i][2][2] }) + Cardinality({ i \in 1..Len(prod) : prod[i][2][1] # prod[i][2][2] })
 OneArrow == phase = "done" => Cardinality({ i \in 1..Len(Shown) : Shown[i].r = "Arrow" }) = 1
 
 Done == phase = "done"
 CaseRec == [ in |-> [reac |-> reac, prod |-> prod, kind |-> kind],
              exp |-> [shown |-> Shown],
              cls |-> kind \o "-" \o ToString(Len(reac)) \o ToString(Len(prod)) ]
+CoefsQ == { <<1, 1>>, <<2, 1>>, <<10, 1>>, <<1, 2>>, <<3, 2>> }
+CoefsT == { <<1, 1>>, <<2, 1>>, <<10, 1>>, <<1, 2>> }
 Emit == Done => PrintT(<<"CASE", ToJson(CaseRec)>>)
 =============================================================================
